@@ -60,7 +60,8 @@ impl<'a> EM<'a> {
     }
     pub fn eload(&mut self, ts: TimeScale, c: i16, n: u64) {
         self.rec.episode();
-        let r = catch(|| Epoch::from_duration(Duration::from_parts(c, n), ts));
+        // Epoch::from_tai_parts is another spelling of the TAI constructor
+        let r = if ts == TimeScale::TAI && (n % 3 == 1) { catch(|| Epoch::from_tai_parts(c, n)) } else { catch(|| Epoch::from_duration(Duration::from_parts(c, n), ts)) };
         self.set("eload", format!("\"ts\":{},\"c\":{},\"n\":{}", ts_idx(ts), c, limbs(n as u128)), r, true);
     }
     pub fn eload_dur(&mut self, ts: TimeScale, d: Duration) {
@@ -153,6 +154,15 @@ impl<'a> EM<'a> {
             _ => a.to_duration_in_time_scale(ts),
         });
         self.rec.ev("to_dur", format!("\"to\":{},\"res\":{}", ts_idx(ts), jres_dur(&r)), ts != a.time_scale);
+        if ts == TimeScale::TAI && form == 2 {
+            // to_tai_parts: the raw parts of the same duration
+            let r = catch(|| a.to_tai_parts());
+            let res = match r {
+                Ok((c, n)) => jparts(c, n),
+                Err(m) => jpanic(&m),
+            };
+            self.rec.ev("to_dur", format!("\"to\":{},\"res\":{}", ts_idx(ts), res), ts != a.time_scale);
+        }
     }
     pub fn cmp(&mut self, f: Epoch) {
         let a = self.e;
